@@ -1,7 +1,6 @@
 import PoxModel.Proofs.HandoffClt
 import PoxModel.Proofs.CoopLock
 import PoxModel.Model.HandoffSites
-import PoxModel.Generated.Sites
 /-! # C07 — hand-off between threads and the scheduler is race-free; locks exclude
 
 All statements are about `Model/Handoff.lean` (an interleaving transition system with one atomic action per Python
@@ -13,15 +12,13 @@ what the trace validation of harness/c07.py tests. -/
 namespace Pox.C07
 open Pox.Handoff
 
-/-! ## tie to the source: the site tables agree -/
+/-! ## tie to the source
 
-/-- the operations on shared state performed by the hand-off functions (helpers inlined), as regenerated from the working
-tree, are the ones the model was written against — see `HandoffSites.ops`.  (The statement TEXTS of `HandoffSites.table` are
-evidence only — the harness reports whether they still agree: they change with every refactoring; order and conditions of the
-operations are tied by the trace validation.) -/
-theorem ops_agree : Pox.Generated.Sites.ops = Pox.HandoffSites.ops := by decide
+The static tie `ops_agree` (the working tree's per-entry-point sets of operations on shared state = the model's table) lives in
+`Properties/C07Tie.lean`, the only C07 module that depends on the working tree (through `Generated/Sites.lean`): the theorems
+below are about the model alone. -/
 
-/-- every action the model's table anchors in a function is an operation in that function's bag -/
+/-- every action the model's table anchors in a function is an element of that function's set of operations -/
 theorem ops_cover : Pox.HandoffSites.opsCover = true := by decide
 
 /-- every action of the model is anchored at exactly one statement (or is one of the two harness-defined actions) -/
